@@ -158,6 +158,50 @@ func witnesses() []witness {
 	}
 }
 
+// indentStrings: WithIndent / WithIndentPrefix hand back exactly the string they were given, alone, joined and in the output.
+func indentStrings(r *evid.Run) {
+	var strs []string
+	var gen func(cur string)
+	gen = func(cur string) {
+		strs = append(strs, cur)
+		if len(cur) == 6 {
+			return
+		}
+		gen(cur + " ")
+		gen(cur + "\t")
+	}
+	gen("")
+	var n int64
+	for _, s := range strs {
+		for which := 0; which < 2; which++ {
+			n++
+			var o jsonv2.Options
+			var got1, got2 string
+			var ok1, ok2 bool
+			var want string
+			if which == 0 {
+				o = jsontext.WithIndent(s)
+				got1, ok1 = jsonv2.GetOption(o, jsontext.WithIndent)
+				got2, ok2 = jsonv2.GetOption(jsonv2.JoinOptions(jsontext.WithIndentPrefix("\t"), o, jsonv2.Deterministic(true)), jsontext.WithIndent)
+				want = "[\n" + s + "1,\n" + s + "[\n" + s + s + "2\n" + s + "]\n]"
+			} else {
+				o = jsontext.WithIndentPrefix(s)
+				got1, ok1 = jsonv2.GetOption(o, jsontext.WithIndentPrefix)
+				got2, ok2 = jsonv2.GetOption(jsonv2.JoinOptions(jsontext.WithIndent(" "), o, jsonv2.Deterministic(true)), jsontext.WithIndentPrefix)
+				want = "[\n" + s + "\t1,\n" + s + "\t[\n" + s + "\t\t2\n" + s + "\t]\n" + s + "]"
+			}
+			b, err := jsonv2.Marshal([]any{1, []any{2}}, o)
+			if !ok1 || !ok2 || got1 != s || got2 != s || err != nil || string(b) != want {
+				name := []string{"WithIndent", "WithIndentPrefix"}[which]
+				r.Violation(fmt.Sprintf("c19|indent-string|%s|%q", name, s), fmt.Sprintf("%s(%q): GetOption returns %q (present=%v), after joining %q (present=%v); Marshal writes %q (%v), want %q", name, s, got1, ok1, got2, ok2, b, err, want), Case{Part: "indent-string", Note: fmt.Sprintf("%s(%q)", name, s)}, nil)
+			}
+		}
+	}
+	r.Evaluations.Add(n)
+	r.Nontrivial.Add(n)
+	r.Bound("indent strings: every string of <=6 blanks and tabs (%d) through WithIndent and WithIndentPrefix: GetOption returns it, alone and joined, and Marshal indents with exactly it", len(strs))
+}
+
 func witnessLaws(r *evid.Run) {
 	ws := witnesses()
 	v1, v2 := jsonv1.DefaultOptionsV1(), jsonv2.DefaultOptionsV2()
@@ -206,6 +250,8 @@ func witnessLaws(r *evid.Run) {
 				check("w(o(true), JoinOptions(o(false))) = w()", w.run(t, jsonv2.JoinOptions(f)), base)
 				check("w(JoinOptions(o(true), o(false))) = w()", w.run(jsonv2.JoinOptions(t, f)), base)
 				check("w(JoinOptions(o(true))) = w(o(true))", w.run(jsonv2.JoinOptions(t)), on)
+				check("w(DefaultOptionsV2(), o(true)) = w(o(true))", w.run(v2, t), on)
+				check("w(DefaultOptionsV2(), JoinOptions(o(false), o(true))) = w(o(true))", w.run(v2, jsonv2.JoinOptions(f, t)), on)
 				if o.v1 {
 					check("w(o(true), DefaultOptionsV2()) = w()", w.run(t, v2), base)
 					check("w(DefaultOptionsV1(), o(true)) = w(DefaultOptionsV1())", w.run(v1, t), underV1)
@@ -229,7 +275,7 @@ func witnessLaws(r *evid.Run) {
 	r.Extra("boolean_options_without_witness", missing)
 	r.Evaluations.Add(n)
 	r.Nontrivial.Add(n)
-	r.Bound("witness laws: %d operations x %d boolean options x 11 last-wins laws (explicit false = default, later setter wins in both directions, pre-joined spellings, DefaultOptionsV2 cancels exactly the legacy options, DefaultOptionsV1 already contains them); %d options change the result of at least one operation", len(ws), len(boolOpts), len(boolOpts)-len(missing))
+	r.Bound("witness laws: %d operations x %d boolean options x 13 last-wins laws (explicit false = default, an option acts alone as it does after DefaultOptionsV2(), later setter wins in both directions, pre-joined spellings, DefaultOptionsV2 cancels exactly the legacy options, DefaultOptionsV1 already contains them); %d options change the result of at least one operation", len(ws), len(boolOpts), len(boolOpts)-len(missing))
 }
 
 // ---- Compact / Indent / Canonicalize are documented as Format with an initial option list followed by the caller's ----
